@@ -479,6 +479,7 @@ static void call_gssvx(int ilu)
     c->tail_dig = tail_digest(c);
     void *work = c->usework ? (void *)c->work : NULL; int_t lwork = c->usework ? (int_t)c->lwork : 0;
     memcpy(&g_opt0, &c->opt, sizeof g_opt0);
+    slu_v_phases_reset();
     if (ilu)
         FN(gsisx)(&c->opt, &c->A, c->perm_c, c->perm_r, c->etree, c->equed, c->R, c->C, &c->L, &c->U, work, lwork,
                   &c->B, &c->X, &c->rpg, &c->rcond, &c->Glu, &c->mu, &c->stat, &c->info);
@@ -495,6 +496,7 @@ static void call_gssvx(int ilu)
     }
     mark_LU_owned(c);
     common_head(ilu ? "gsisx" : "gssvx", c); opts_json_same(c);
+    if (!ilu) slu_v_phases_json(OUT);
     fprintf(OUT, ",\"info\":%lld,\"equed\":\"%c\"", (long long)c->info, c->equed[0] >= 32 && c->equed[0] < 127 && c->equed[0] != '"' && c->equed[0] != '\\' ? c->equed[0] : '?');
     snap_json(c, &s);
     jints("perm_c", c->perm_c, n); jints("perm_r", c->perm_r, c->m); jints("etree", c->etree, n);
@@ -510,6 +512,23 @@ static void call_gssvx(int ilu)
     ledger_json(c);
     ENDLINE();
     free_snap(&s);
+}
+
+/* "every exact size of the growable arrays relative to their capacity": the column boundaries of the factor arrays of the
+ * factorization held in the context (cursor values of LUSUP, UCOL/USUB, LSUB at the start of every column / supernode).
+ * A later incomplete factorization can be started with exactly that capacity (fillfrom: ILU_FillFactor is a real number and
+ * the initial length of all four arrays is FillFactor * nnz(A)), so that the array is exactly full when that column begins. */
+static TLS long g_cursor[3 * MAXN + 8]; static TLS int g_ncursor;
+static int cmp_long(const void *a, const void *b) { long x = *(const long *)a, y = *(const long *)b; return x < y ? -1 : x > y; }
+static void cmd_cursors(void)
+{
+    ctx_t *c = cx; g_ncursor = 0;
+    if (!c->haveL || !c->L.Store || !c->U.Store) return;
+    SCformat *Ls = c->L.Store; NCformat *Us = c->U.Store; long tmp[3 * MAXN + 8]; int k = 0;
+    for (int j = 1; j <= c->n && k + 3 <= 3 * MAXN; j++) { tmp[k++] = (long)Ls->nzval_colptr[j]; tmp[k++] = (long)Us->colptr[j]; tmp[k++] = (long)Ls->rowind_colptr[j]; }
+    qsort(tmp, k, sizeof(long), cmp_long);
+    for (int i = 0; i < k; i++) if (tmp[i] >= c->nnz && (g_ncursor == 0 || g_cursor[g_ncursor - 1] != tmp[i])) g_cursor[g_ncursor++] = tmp[i];
+    fprintf(OUT, "{\"e\":\"Mark\",\"id\":\"%s\",\"tag\":\"cursors_%d\"}\n", g_id, g_ncursor);
 }
 
 /* factor routine called the way FORTRAN/c_fortran_dgssv.c does: get_perm_c (unless MY_PERMC), sp_preorder, ?gstrf */
@@ -618,6 +637,8 @@ static void run_scenario(void)
         else if (!strcmp(cmd, "permr")) { for (int i = 0; i < cx->m; i++) cx->perm_r[i] = (int)rdint(&rest); }
         else if (!strcmp(cmd, "work")) cmd_work(rest);
         else if (!strcmp(cmd, "nowork")) { cx->usework = 0; }
+        else if (!strcmp(cmd, "cursors")) cmd_cursors();
+        else if (!strcmp(cmd, "fillfrom")) { long k = rdint(&rest), delta = rdint(&rest); if (g_ncursor > 0 && cx->nnz > 0) { long L = g_cursor[k % g_ncursor] + delta; if (L < cx->nnz) L = cx->nnz; cx->opt.ILU_FillFactor = ((double)L + 0.5) / (double)cx->nnz; } }
         else if (!strcmp(cmd, "relwork")) { long lw = rdint(&rest); if (cx->work_raw && lw <= cx->work_alloc) { cx->lwork = lw; cx->usework = 1; } }   /* same buffer, shorter length */
         else if (!strcmp(cmd, "events")) slu_v_set_events(atoi(rest));
         else if (!strcmp(cmd, "failalloc")) { char sub[64]; int line; long kk; int st = 0; if (sscanf(rest, "%63s %d %ld %d", sub, &line, &kk, &st) >= 3) slu_v_fail(!strcmp(sub, "*") ? "" : sub, line, kk, st); }
